@@ -6,7 +6,13 @@ and indices of a let, undefined and doubly defined identifiers, unknown gates, w
 native gate set.  Each (program, override) pair is pushed through parse -> fill_in_let -> expand_macros -> run; TLC
 (Conform_Valid) decides validity on the MODEL program (JaqalSem!ValidAll) and validates: invalid => rejected with
 JaqalError at some stage, literal violations already at parse, valid => accepted, and for accepted programs every
-applied gate acts on the qubits the specification resolves (hook H3)."""
+applied gate acts on the qubits the specification resolves (hook H3).
+
+Gate environment (JaqalGateEnv / GateEnvEnum): TLC enumerates every (injected dictionary, autoload flag, sequence of
+usepulses imports over two pulse modules with an overlapping gate name, call); each is parsed for real and TLC
+(Conform_GateEnv) validates acceptance against the definition IN EFFECT (injected over imported, later import over
+earlier), the circuit's native gate table and the definition the statement refers to."""
+import json
 import random
 
 from . import core, passes, impl, project, render, execrun
@@ -52,6 +58,60 @@ def run_pipeline(job):
             'text': text + ' | override %s | %s' % (passes.ovr_dict(ovr), [(s['stage'], s['cls']) for s in stages])}
 
 
+PULSES = __import__('os').path.join(core.ROOT, 'harness', 'pulses')
+ARGTEXT = {'qubit': ['q[0]', 'q[1]'], 'float': ['1.5'], 'int': ['2']}
+
+
+def injected(tag):
+    from jaqalpaq.core.gatedef import GateDefinition
+    from jaqalpaq.core.parameter import Parameter, ParamType
+    Q = ParamType.QUBIT
+    return {'none': None, 'ix': {'X': GateDefinition('X', [Parameter('a', Q), Parameter('b', Q)])},
+            'iz': {'Z': GateDefinition('Z', [Parameter('a', Q)])}}[tag]
+
+
+def run_gateenv(job):
+    """one (injected set, autoload, import sequence, call): which definition is in effect?"""
+    from jaqalpaq.parser import parse_jaqal_string
+    from jaqalpaq.core.gatedef import AbstractGate
+    nq = 0
+    args = []
+    for k in job['call']['args']:
+        args.append(ARGTEXT[k][nq % 2] if k == 'qubit' else ARGTEXT[k][0])
+        nq += k == 'qubit'
+    text = ''.join('from .%s usepulses *\n' % m for m in job['imps']) + 'register q[2]\n' + ' '.join([job['call']['v']] + args) + '\n'
+    r, e = impl.with_cpu_limit(lambda: parse_jaqal_string(text, inject_pulses=injected(job['inj']), autoload_pulses=job['auto'],
+                                                          import_path=PULSES))
+    out = dict(job, obs={'cls': 'ok', 'msg': ''}, table=[], def_kinds=[], def_known=False,
+               text=text + ' | injected %s autoload %s' % (job['inj'], job['auto']))
+    if e is not None:
+        out['obs'] = {'cls': 'timeout' if isinstance(e, impl.Timeout) else impl.classify_exc(e), 'msg': str(e)[:120]}
+        return out
+    out['table'] = sorted(({'v': n, 'kinds': project.native(g)['kinds']} for n, g in r.native_gates.items()), key=lambda x: x['v'])
+    gd = r.body.statements[0].gate_def
+    # a definition found in a gate set (as opposed to the anonymous definition made up when no set is in force)
+    out['def_known'] = bool(any(gd is g for g in r.native_gates.values()))
+    out['def_kinds'] = project.native(gd)['kinds'] if out['def_known'] else []
+    return out
+
+
+def gateenv_stage(rep, tier, wd):
+    cfg = ('SPECIFICATION Spec\nCONSTANTS MaxImports = %d\nINVARIANT Emit\nINVARIANT InjectedWins\nINVARIANT LastImportWins\n'
+           'INVARIANT ImportIdempotent\n' % (2 if tier == 'quick' else 3))
+    res = core.run_tlc('GateEnvEnum', cfg, wd)
+    rep.add_model_check('GateEnvEnum InjectedWins LastImportWins ImportIdempotent', res)
+    jobs = []
+    for line in sorted(set(res['out'].splitlines())):
+        if line.startswith('<<"GENV", '):
+            d = json.loads(json.loads(line[len('<<"GENV", '):].rstrip()[:-2]))
+            jobs.append(dict(d, id='genv/%d' % len(jobs)))
+    recs = core.pool_map(run_gateenv, jobs, chunksize=50)
+    verdicts, stats = core.validate('Conform_GateEnv', recs, wd, shard_size=4000)
+    rep.add_validation('gateenv', recs, verdicts, stats)
+    rep.cov['gate_environments'] = len(recs)
+    return recs
+
+
 def main(tier):
     impl.guard_repo()
     rep = core.Report(PROP, tier)
@@ -75,6 +135,8 @@ def main(tier):
     verdicts, stats = core.validate('Conform_Valid', recs, wd, shard_size=1500)
     rep.phase('tlc_validation')
     rep.add_validation('pipeline', recs, verdicts, stats)
+    gateenv_stage(rep, tier, wd)
+    rep.phase('gate_environment')
     out = {}
     for r in recs:
         k = '/'.join(s['cls'] for s in r['stages'])
